@@ -312,7 +312,9 @@ CheckPower(p, k) ==
        IN
        /\ (inside = {} \/ Fail(p, "C18_powered", [unit |-> k, type |-> t, unpowered |-> {<<EName(u, e), Ents(u)[e].position>> : e \in inside}]))
        /\ (outside = {} \/ Fail(p, "C18_powered_outside", [unit |-> k, type |-> t, unpowered |-> {<<EName(u, e), Ents(u)[e].position>> : e \in outside}]))
-       /\ (OneGrid(u) \/ Fail(p, "C18_one_grid", [unit |-> k, type |-> t, poles |-> Cardinality(Poles(u))]))
+       \* poles that could be wired but are not = a wiring fault (C18_one_grid); clusters placed out of each other's reach although one
+       \* lattice pole between them would do = the recorded placement defect (C18_grid_gap); anything else is C18_one_grid again
+       /\ (OneGrid(u) \/ Fail(p, IF BridgeableGap(u) THEN "C18_grid_gap" ELSE "C18_one_grid", [unit |-> k, type |-> t, poles |-> Cardinality(Poles(u)), placed_in_reach |-> ReachGrid(u)]))
        /\ ((\A q \in Poles(u) : EName(u, q) = t) \/ Fail(p, "C18_type", [unit |-> k, type |-> t, found |-> {EName(u, q) : q \in Poles(u)}]))
 ASSUME \A p \in PIDs : \A k \in DOMAIN UnitsOf(p) : ~Active("C08_overlap") \/ CheckPaste(p, k)
 ASSUME \A p \in PIDs : \A k \in DOMAIN UnitsOf(p) : ~Active("C18_powered") \/ ~WiresOK(UnitsOf(p)[k]) \/ CheckPower(p, k)
